@@ -11,7 +11,7 @@ RULE = ("every case of each listed space is executed on nearest_neighbor and sym
         "set is non-empty; distinct = distinct case tuples (digest-sharded)")
 ASSUMPTIONS = ["strings longer than the stated bounds / alphabets larger than 4 letters are covered only through the CDR3 one-edit/two-edit ball families",
                "rapidfuzz is exercised, not trusted: every reported d is compared with the reference"]
-REQUIRED_CLASSES = {"all": ["container-reused-with-new-contents", "size-boundary-family", "non-ascii-alphabet", "needs-indel", "has-empty-string", "duplicate-at-distance-0", "shorter-than-k", "homopolymer"]}
+REQUIRED_CLASSES = {"all": ["all-sequences-of-one-length", "container-reused-with-new-contents", "size-boundary-family", "non-ascii-alphabet", "needs-indel", "has-empty-string", "duplicate-at-distance-0", "shorter-than-k", "homopolymer"]}
 MIN_OUTCOMES = 10
 
 CDR3_SEEDS = ("CASSLGQAYEQYF", "CAVRDSNYQLIW", "CASSPTGGDTQYF", "CAS")
@@ -78,6 +78,12 @@ def spaces(tier):
             yield ("allpairs", "A\u03b1\u00e9", 4, k, "fwd")
             yield ("allpairs", "\u03b1\u4e2d", 5, k, "rev")
             yield ("allpairs", "A\x00", 4, k, "fwd")       # NUL is a legal character; fixed-width NumPy strings drop trailing NULs
+            yield ("allpairs", "AB|", 3, k, "fwd")         # characters that code likes to use as separators
+            yield ("allpairs", "A_.", 3, k, "rev")
+            # every sequence of one and the same length: shifted pairs have Levenshtein < Hamming
+            yield ("eqlen", "AC", 6, k)
+            yield ("eqlen", "ACD", 4, k)
+            yield ("eqlen", "ACDE", 3, k)
 
     def gen_reuse():
         U = E.universe("AC", 2)
@@ -95,7 +101,7 @@ def spaces(tier):
 
     return [
         Space("all-pairs-of-universe", gen_allpairs, "whole universe U(alphabet,L) as one list, fwd and reversed order: %s x k in 1..4 (thorough: 1..3, and k=4 on the quick universes), k=L+1; thorough also U(AC,10), U(ACD,7) x k in 1..2" % uni, per_case=True),
-        Space("size-boundary-and-non-ascii", gen_size, "collections of 257, 1025 and 65560 strings whose positions next to 0, 256, 1024, 65536 and the end hold a clonal family (fillers mutually >= 2 edits apart); universes over multi-byte alphabets {A, alpha, e-acute} and {alpha, CJK}", per_case=True),
+        Space("size-boundary-and-non-ascii", gen_size, "collections of 257, 1025 and 65560 strings whose positions next to 0, 256, 1024, 65536 and the end hold a clonal family (fillers mutually >= 2 edits apart); universes over multi-byte alphabets {A, alpha, e-acute} and {alpha, CJK}, with NUL, with separator-like characters (| _ .); all strings of exactly one length (AC^6, ACD^4, ACDE^3)", per_case=True),
         Space("all-lists", gen_lists, "all ordered lists with repetition: Lists(U(AC,2),3) [quick] / Lists(U(AC,2),4)+Lists(U(AC,3),3) [thorough] x k in 1..3"),
         Space("same-container-new-contents", gen_reuse, "one list / ndarray object searched, overwritten in place with every other list of the same length over U(AC,2) (lengths 2..3) and searched again: the second answer must be that of the new contents", shards=32),
         Space("cdr3-edit-ball-families", gen_family, "complete one-edit ball over the 20 amino acids (thorough: + two-edit ball over ACSG) around %d CDR3 seeds, k in 1..2(3)" % len(CDR3_SEEDS), per_case=True),
@@ -129,6 +135,9 @@ def build(case):
         return family(si, radius, alphabet), k
     if kind == "sizefam":
         return E.size_family(case[1])[0], case[2]
+    if kind == "eqlen":
+        _, alpha, L, k = case
+        return ["".join(t) for t in itertools.product(alpha, repeat=L)], k
     raise HarnessError("unknown case %r" % (case,))
 
 
@@ -169,6 +178,8 @@ def check_case(case, acc):
     small = case[0] == "list"
     if case[0] == "sizefam":
         acc.cls("size-boundary-family")
+    if case[0] == "eqlen":
+        acc.cls("all-sequences-of-one-length")
     if case[0] == "allpairs" and not case[1].isascii():
         acc.cls("non-ascii-alphabet")
     # classes named by the property
